@@ -112,3 +112,73 @@ def measure_ns_cell(cell, seed):
         parts = [2 * b0p * A[1], b1p * A[0], g[0] * d2, 2 * d1 * g[1], g[2], -gp[2], A[0] * (g[0] * d1 + g[1] - gp[1])]
     res = abs(dA[k - 1] - sum(parts)) / max([abs(x) for x in parts] + [1.0])
     return {"e": expo100(res)}, {"res": float(res), "n": [n.real, n.imag], "L": L, "entry": [0, 0]}
+
+
+# ---------------------------------------------------------------------------------------------
+# Law OmeRge2 (C29): singlet matrices, second order, entry by entry
+# ---------------------------------------------------------------------------------------------
+# In the basis (g, Sigma_light, h+):   dA2/dL = beta0' A1 + G1(nf) + d1 G0(nf) - G1(nf+1) + A1 G0(nf) - G0(nf+1) A1
+# where G(nf) embeds the nf-flavour singlet matrix with an inert heavy quark and G(nf+1) is the (nf+1)-flavour
+# evolution of (g, Sigma' = Sigma_light + h+) and of the non-singlet T = Sigma_light - nf h+ (gamma_ns^+),
+# rewritten for (g, Sigma_light, h+):
+#     g     row: (gg, gq, gq)
+#     Sigma row: (nf qg, nf qq + ns, nf (qq - ns)) / (nf + 1)
+#     h+    row: (qg, qq - ns, qq + nf ns) / (nf + 1)
+ENTRIES2 = {"gg": (0, 0), "gq": (0, 1), "qg": (1, 0), "qq": (1, 1), "hg": (2, 0), "hq": (2, 1)}
+
+
+def _gam2(v, n, nf):
+    from ekore.harmonics import cache as c
+
+    if v == "us":
+        import ekore.anomalous_dimensions.unpolarized.space_like as ad
+    elif v == "ps":
+        import ekore.anomalous_dimensions.polarized.space_like as ad
+    else:
+        raise KeyError(v)
+    return (np.asarray(ad.as1.gamma_singlet(n, c.reset(), nf), dtype=np.complex128),
+            np.asarray(ad.as2.gamma_singlet(n, nf, c.reset()), dtype=np.complex128),
+            complex(ad.as1.gamma_ns(n, c.reset())), complex(ad.as2.gamma_nsp(n, nf, c.reset())))
+
+
+def _low(s):
+    return np.array([[s[1, 1], s[1, 0], 0], [s[0, 1], s[0, 0], 0], [0, 0, 0]], dtype=np.complex128)
+
+
+def _high(s, ns, nf):
+    qq, qg, gq, gg = s[0, 0], s[0, 1], s[1, 0], s[1, 1]
+    n1 = nf + 1
+    return np.array([[gg, gq, gq],
+                     [nf * qg / n1, (nf * qq + ns) / n1, nf * (qq - ns) / n1],
+                     [qg / n1, (qq - ns) / n1, (qq + nf * ns) / n1]], dtype=np.complex128)
+
+
+def measure_rge2_cell(cell, seed):
+    from eko.beta import beta_qcd
+    from eko.couplings import compute_matching_coeffs_down
+
+    # the same point for the six entries of one (v, nf, j)
+    rng = E.cell_rng(seed, {"v": cell["v"], "nf": cell["nf"], "j": cell["j"]}, "C29rge2")
+    v, nf = cell["v"], cell["nf"]
+    n = complex(rng.uniform(1.5, 25.0), rng.uniform(-30.0, 30.0)) if cell["j"] % 2 else complex(rng.uniform(1.5, 6.0), rng.uniform(-5.0, 5.0))
+    L = rng.uniform(-2.5, 2.5)
+
+    def tower(LL):
+        t = R.ome_tower(v, "S", 2, nf, LL, n)
+        return np.asarray(t[0], dtype=np.complex128), np.asarray(t[1], dtype=np.complex128)
+
+    h = 0.5
+    dA2 = (-tower(L + 2 * h)[1] + 8 * tower(L + h)[1] - 8 * tower(L - h)[1] + tower(L - 2 * h)[1]) / (12 * h)
+    A1 = tower(L)[0]
+    s0, s1, ns0, ns1 = _gam2(v, n, nf)
+    p0, p1, pn0, pn1 = _gam2(v, n, nf + 1)
+    dn = compute_matching_coeffs_down("POLE", nf)
+    d1 = dn[1, 0] + dn[1, 1] * L
+    b0p = float(beta_qcd((2, 0), nf + 1))
+    G0n, G1n, G0p, G1p = _low(s0), _low(s1), _high(p0, pn0, nf), _high(p1, pn1, nf)
+    rhs = b0p * A1 + G1n + d1 * G0n - G1p + A1 @ G0n - G0p @ A1
+    r, q = ENTRIES2[cell["entry"]]
+    scale = float(np.max(np.abs(G1p)))
+    res = float(abs(dA2[r, q] - rhs[r, q])) / scale
+    return {"e": expo100(res)}, {"res": res, "n": [n.real, n.imag], "L": L, "entry": [r, q],
+                                 "dA2_dL": [dA2[r, q].real, dA2[r, q].imag], "required": [rhs[r, q].real, rhs[r, q].imag]}
